@@ -25,7 +25,7 @@ def plan_cli(steps, R, P, faulty):
             steps.append({'k': 'cli', 'cmd': cmd, 'files': files, 'src': src, 'page_size': R.randint(1, 5),
                           'suffix': R.choice([None, None, '.mos.xml', '.xml'])})
         else:
-            usable = [i for i, s in enumerate(st) if s['op']['type'] != 'Raw' and not s.get('corrupt') and not s['op'].get('malformed') and not s.get('remid')]
+            usable = [i for i, s in enumerate(st) if s['op']['type'] != 'Raw' and not s.get('corrupt') and not s['op'].get('malformed')]      # incl. re-sent messages with equal ids
             sel = list(usable)
             kind = R.choice(['plain', 'plain', 'plain', 'no-create', 'no-delete', 'subset', 'bad-input', 'bad-output', 'none', 'dup-path', 'dup-path'])
             if kind == 'no-create':
